@@ -226,3 +226,24 @@ def abstract_content(s):
                 c = intern(("pub", d["topic"], d["payload"], d["qos"], d["retain"], repr(sorted(M.canon_props(d["props"]).items(), key=repr))))
                 toks.append(f"r:{num(o.name) if o else 0}:{c}")
     return toks, None
+
+
+def abstract_disc(s):
+    """write-level projection (lean/Mqtt5V/Model/TraceDisc.lean): U connection up, D given up, W write starts, d a DISCONNECT packet, o another
+    packet, K / F the write ends"""
+    toks = []
+    for line, evs, st, t in s.tr:
+        ws = line.split()
+        if not ws or evs == ["<crash>"] or evs == ["<bad-op>"]: break
+        if ws[0] == "reconnect": toks.append("U")
+        elif ws[0] == "wdone": toks.append("K" if ws[2] == "ok" else "F")
+        for e in evs:
+            es = e.split()
+            if es[0] == "wr":
+                toks.append("W")
+                for hx in es[2:]:
+                    raw = bytes.fromhex(hx) if hx != "-" else b""
+                    toks.append("d" if raw and raw[0] & 0xF0 == 0xE0 else "o")
+            elif es[0] in ("shut", "close"):
+                toks.append("D")
+    return toks, None
